@@ -61,7 +61,7 @@ class TlcResult:
         self.violated = re.findall(r"Invariant (\w+) is violated", out) + re.findall(
             r"(?:Temporal properties were violated|Action property (\w+) is violated)", out
         )
-        if not self.violated and re.search(r"(?i)temporal propert\w+ (?:was|were) violated|is violated", out):
+        if not self.violated and re.search(r"(?i)temporal propert[^\n]*violated|is violated", out):
             self.violated = ["temporal"]
         self.violated = [v or "temporal" for v in self.violated]
         self.error = "Error:" in out and not self.violated
